@@ -118,8 +118,12 @@ class ServerConn:
 
 
 class SimNet:
-    def __init__(self, chooser=None, menu=None, trunc="quick", now=T0):
+    def __init__(self, chooser=None, menu=None, trunc="quick", now=T0, delivery="whole"):
         self.clock = Clock(now)
+        # default answer of recv(): 'whole' = everything queued (up to n); 'segment' = at most
+        # one command's reply per recv (pipelined replies arrive in separate TCP segments);
+        # 'byte' = one byte per recv.  A configuration, not a deviation.
+        self.delivery = delivery
         self.chooser = chooser
         self.menu = menu if menu is not None else MENU_CONN
         self.trunc = trunc
@@ -462,6 +466,9 @@ class SimSocket:
             net.blocked.append((net.call, self.sid))
             net.log("recv_blocks_forever", self, self.timeout)
             raise _realsocket.timeout("timed out")
+        limit = min(n, avail)
+        if net.delivery != "whole":
+            limit = 1 if net.delivery == "byte" else min(limit, len(conn.pipe[0][0]))
         c = "ok"
         if net.chooser is not None:
             labels = net.menu.get("recv")
@@ -469,10 +476,10 @@ class SimSocket:
                 app = []
                 for lab in labels:
                     if lab == "short1":
-                        if avail > 1 and n > 1:
+                        if limit > 1:
                             app.append(lab)
                     elif lab == "cut_cr":
-                        data = conn.peek(min(n, avail))
+                        data = conn.peek(limit)
                         p = data.find(b"\r\n")
                         if p != -1 and 0 < p + 1 < len(data):
                             app.append(lab)
@@ -480,11 +487,11 @@ class SimSocket:
                         app.append(lab)
                 c = net.choose("recv", app)
         if c == "ok":
-            data, tags = conn.take(min(n, avail))
+            data, tags = conn.take(limit)
         elif c == "short1":
             data, tags = conn.take(1)
         elif c == "cut_cr":
-            data = conn.peek(min(n, avail))
+            data = conn.peek(limit)
             data, tags = conn.take(data.find(b"\r\n") + 1)
         elif c == "timeout":
             net.log("recv_fail", self, "timeout", self.timeout)
